@@ -6,7 +6,7 @@ For KIND=m prints CAUGHT/MISSED (own property's check), for KIND=r prints SILENT
 import json, os, re, shutil, subprocess, sys
 from concurrent.futures import ThreadPoolExecutor
 from pathlib import Path
-V = Path('/verif'); suf = sys.argv[1]
+V = Path(os.environ.get('VERIF_ROOT', '/verif')); suf = sys.argv[1]
 ids = sys.argv[2:] or [f'C{i:02d}' for i in range(1, 21)]
 kind = os.environ.get('KIND', 'm')
 jobs = int(os.environ.get('JOBS', '4'))
